@@ -285,6 +285,18 @@ def model_spa_class():
                     return True
             return super()._should_ignore(handler, sender, respect_rferr)
 
+        # -- reminders: peer data (the bundled simulator always reports four valid ones) --------------------------------
+        reminders_override = None
+
+        def _on_get_reminders(self, handler, sender):
+            if self.reminders_override is None:
+                return super()._on_get_reminders(handler, sender)
+            if self._should_ignore(handler, sender):
+                return
+            from geckolib.driver import GeckoRemindersProtocolHandler
+
+            self._socket.queue_send(GeckoRemindersProtocolHandler.response(list(self.reminders_override), parms=sender), sender)
+
         # -- watercare ---------------------------------------------------------------------------------
         def _on_watercare(self, handler, sender):
             if self._should_ignore(handler, sender):
